@@ -274,11 +274,41 @@ impl Script {
     }
 
     /// Folds OP_IF .. OP_ELSE .. OP_ENDIF held as plain opcodes (as `push`, `push_array` and `from_script_bits` leave them)
-    /// into conditional blocks, the form the parsers produce. Elements whose conditionals do not balance are returned as they are.
+    /// into conditional blocks, the form the parsers produce, also inside the branches of blocks that are already there.
+    /// What follows an OP_RETURN at the top level is never executed and is left as it is, so it need not balance;
+    /// elements whose conditionals do not balance otherwise are returned unfolded.
     pub(crate) fn nest_conditionals(bits: Vec<ScriptBit>) -> Vec<ScriptBit> {
-        match Script::if_statement_pass(&mut bits.iter()) {
-            Ok(nested) => nested,
+        // the first OP_RETURN outside every conditional
+        let mut depth = 0usize;
+        let top_level_return = bits.iter().position(|bit| match bit {
+            ScriptBit::OpCode(OpCodes::OP_IF | OpCodes::OP_NOTIF | OpCodes::OP_VERIF | OpCodes::OP_VERNOTIF) => {
+                depth += 1;
+                false
+            }
+            ScriptBit::OpCode(OpCodes::OP_ENDIF) => {
+                depth = depth.saturating_sub(1);
+                false
+            }
+            ScriptBit::OpCode(OpCodes::OP_RETURN) => depth == 0,
+            _ => false,
+        });
+        let (head, tail) = bits.split_at(top_level_return.map_or(bits.len(), |position| position + 1));
+
+        match Script::if_statement_pass(&mut head.iter()) {
+            Ok(nested) => nested.into_iter().map(Script::nest_branches).chain(tail.iter().cloned()).collect(),
             Err(_) => bits,
+        }
+    }
+
+    /// Folds plain conditional opcodes inside the branches of a conditional block
+    fn nest_branches(bit: ScriptBit) -> ScriptBit {
+        match bit {
+            ScriptBit::If { code, pass, fail } => ScriptBit::If {
+                code,
+                pass: Script::nest_conditionals(pass),
+                fail: fail.map(Script::nest_conditionals),
+            },
+            other => other,
         }
     }
 
